@@ -6,10 +6,13 @@ set -u
 PATCH=$1; TIER=$2; shift 2
 if ! git -C /repo diff --quiet; then echo "refusing: /repo is dirty" >&2; exit 2; fi
 if ! git -C /repo apply "$PATCH"; then echo "patch does not apply" >&2; exit 2; fi
+# the evidence files of /verif must only ever describe runs on the unchanged tree
+EVBAK=$(mktemp -d); cp -a /verif/evidence/. "$EVBAK"/
 for c in "$@"; do
     out=$(cd /verif && ./check "$c" "$TIER" 2>&1); code=$?
     first=$(printf '%s\n' "$out" | grep -m1 "^  \[$c\]" | cut -c1-260)
     echo "$c exit=$code $first"
 done
 git -C /repo checkout -- . 
+rm -rf /verif/evidence; mkdir -p /verif/evidence; cp -a "$EVBAK"/. /verif/evidence/; rm -rf "$EVBAK"
 git -C /repo status --short | grep -v '^??' | head
